@@ -611,6 +611,46 @@ func c16GenSafeMap(r *verifh.Rng) []verifh.Section {
 		ops = append(ops, "range", "size", fmt.Sprintf("rangestop %d", r.Range(1, nkeys+1)))
 		secs = append(secs, verifh.Section{Cfg: cfg, Ops: ops})
 	}
+	// preloaded sections: the state a long run of deletions leads to, set up directly - `pre=n:d`: keys 0…n-1 are
+	// Set (n >= copyThreshold, so Del does not merge the old generation away), then deletionOld is poked to d.  The
+	// state is reachable (n Sets, then d times Set/Del of a key outside 0…n-1; d <= maxDeletion+1), the long sections
+	// below reach it the honest way.  Short histories then cross the switch `deletionOld > maxDeletion` and work with BOTH
+	// generations non-empty: Set moves keys old -> new, Get / Range / Size see both, a stopping Range callback.
+	for i := 0; i < verifh.Scale(5, 40); i++ {
+		n := copyThreshold + r.Range(0, 40)
+		d := maxDeletion + r.Pick(1, 1, 0, -2)
+		hot := make([]int, r.Range(3, 7))
+		for j := range hot {
+			hot[j] = r.Pick(r.Intn(n), r.Intn(n), n+j) // keys of the old generation and fresh ones
+		}
+		var ops []string
+		val := n + 10
+		for j, nops := 0, r.Range(20, verifh.Scale(70, 120)); j < nops; j++ {
+			k := hot[r.Intn(len(hot))]
+			switch x := r.Intn(100); {
+			case x < 35:
+				ops = append(ops, fmt.Sprintf("set %d %d", k, r.Pick(0, val, val, val)))
+				val++
+			case x < 55:
+				ops = append(ops, fmt.Sprintf("del %d", k))
+			case x < 75:
+				ops = append(ops, fmt.Sprintf("get %d", k))
+			case x < 80:
+				ops = append(ops, "size")
+			case x < 85:
+				ops = append(ops, "st")
+			case x < 92:
+				ops = append(ops, fmt.Sprintf("rangestop %d", r.Pick(1, 1, 2, 3, n-1, n)))
+			default:
+				ops = append(ops, fmt.Sprintf("rangestop o+%d", r.Pick(0, 1, 1, 2, 5)))
+			}
+		}
+		ops = append(ops, "st", "size", "rangestop 1", "rangestop o+1", "range")
+		for _, k := range hot {
+			ops = append(ops, fmt.Sprintf("get %d", k))
+		}
+		secs = append(secs, verifh.Section{Cfg: fmt.Sprintf("%s pre=%d:%d", cfg, n, d), Ops: ops})
+	}
 	// long runs of deletions: the generation switches
 	nlong := verifh.Scale(1, 4)
 	for i := 0; i < nlong; i++ {
@@ -719,6 +759,12 @@ func c16GenSafeMap(r *verifh.Rng) []verifh.Section {
 
 func c16StartSafeMap(cfg verifh.Cfg) (func(op []string) string, func()) {
 	m := NewSafeMap()
+	if pre := strings.Split(cfg.Str("pre", ""), ":"); len(pre) == 2 {
+		for k, n := 0, verifh.Atoi(pre[0]); k < n; k++ {
+			m.Set(k, k+1)
+		}
+		m.deletionOld = verifh.Atoi(pre[1])
+	}
 	return func(op []string) string {
 		switch {
 		case len(op) == 3 && op[0] == "set":
